@@ -43,15 +43,11 @@ Lemma zip_empty_dir_visible_l :
   = [VStat true 0; VBool true; VNames []].
 Proof. vm_compute. reflexivity. Qed.
 
-Lemma tar_reread_l :
-  view_run VTar (view_index VTar (zip_entries w_tree)) [] [(OpRead, [[100]; [102]]); (OpRead, [[100]; [102]])]
-  = [VData [104; 105]; VEmptyErr].
-Proof. vm_compute. reflexivity. Qed.
-
-Lemma zip_reread_l :
-  view_run VZip (view_index VZip (zip_entries w_tree)) [] [(OpRead, [[100]; [102]]); (OpRead, [[100]; [102]])]
-  = [VData [104; 105]; VData [104; 105]].
-Proof. vm_compute. reflexivity. Qed.
+(* a file of the tar view can be read again (tarfs.go rewindingTarFs), like on the zip view *)
+Lemma reread_l : forall k,
+  view_run k (view_index k (zip_entries w_tree)) [] [(OpRead, [[100]; [102]]); (OpRead, [[100]; [102]]); (OpRead, [[100]; [102]])]
+  = [VData [104; 105]; VData [104; 105]; VData [104; 105]].
+Proof. intros [|]; vm_compute; reflexivity. Qed.
 
 Lemma rm_empty_dir_zip_l :
   v_exists VZip (view_index VZip (zip_entries w_tree)) [[101]] = true /\
